@@ -145,6 +145,73 @@ Proof.
   apply in_map_iff. exists i. split; [reflexivity | exact Hi].
 Qed.
 
+(* ---- and nothing else: the keys of the specs are pairwise different and each comes from a declaration *)
+
+Definition has_key (specs : list result_spec) (k : text) : bool := existsb (fun s => text_eqb (rs_key s) k) specs.
+
+Lemma has_key_In : forall specs k, has_key specs k = true <-> In k (map rs_key specs).
+Proof.
+  intros specs k. unfold has_key. split; intro H.
+  - apply existsb_exists in H. destruct H as [s [Hs Hk]]. apply text_eqb_eq in Hk. subst k. apply in_map. exact Hs.
+  - apply in_map_iff in H. destruct H as [s [Hk Hs]]. apply existsb_exists. exists s. split; [exact Hs|].
+    apply text_eqb_eq. exact Hk.
+Qed.
+
+Lemma merge_into_keys : forall specs nid i,
+  map rs_key (merge_into specs nid i)
+  = if has_key specs (ri_key i) then map rs_key specs else (map rs_key specs ++ [ri_key i])%list.
+Proof.
+  induction specs as [|s rest IH]; intros nid i; cbn [merge_into has_key existsb map app]; [reflexivity|].
+  destruct (text_eqb (rs_key s) (ri_key i)) eqn:E; cbn [orb map].
+  - unfold merge_spec; cbn [rs_key]. reflexivity.
+  - rewrite IH. unfold has_key. destruct (existsb (fun s0 => text_eqb (rs_key s0) (ri_key i)) rest); reflexivity.
+Qed.
+
+Lemma nodup_snoc : forall (l : list text) k, NoDup l -> ~ In k l -> NoDup (l ++ [k])%list.
+Proof.
+  induction l as [|x l IH]; intros k Hn Hk; cbn [app].
+  - constructor; [intros []|constructor].
+  - inversion Hn; subst. constructor.
+    + intro Hin. apply in_app_or in Hin. destruct Hin as [Hin|[Hin|[]]]; [contradiction|]. subst k. apply Hk. left. reflexivity.
+    + apply IH; [assumption|]. intro Hin. apply Hk. right. exact Hin.
+Qed.
+
+Lemma merge_into_nodup : forall specs nid i, NoDup (map rs_key specs) -> NoDup (map rs_key (merge_into specs nid i)).
+Proof.
+  intros specs nid i H. rewrite merge_into_keys. destruct (has_key specs (ri_key i)) eqn:E; [exact H|].
+  apply nodup_snoc; [exact H|]. intro Hin. apply has_key_In in Hin. rewrite Hin in E. discriminate.
+Qed.
+
+Lemma fold_merge_keys : forall (rs : list (N * result_info)) acc,
+  NoDup (map rs_key acc) ->
+  NoDup (map rs_key (fold_left (fun specs ni => merge_into specs (fst ni) (snd ni)) rs acc))
+  /\ forall k, In k (map rs_key (fold_left (fun specs ni => merge_into specs (fst ni) (snd ni)) rs acc)) ->
+        In k (map rs_key acc) \/ In k (map (fun ni => ri_key (snd ni)) rs).
+Proof.
+  induction rs as [|[nid i] rs IH]; intros acc H; cbn [fold_left].
+  - split; [exact H|]. intros k Hk. left. exact Hk.
+  - destruct (IH (merge_into acc nid i) (merge_into_nodup acc nid i H)) as [H1 H2]. cbn [fst snd] in *.
+    split; [exact H1|]. intros k Hk. destruct (H2 k Hk) as [Hin|Hin].
+    + rewrite merge_into_keys in Hin. destruct (has_key acc (ri_key i)).
+      * left. exact Hin.
+      * apply in_app_or in Hin. destruct Hin as [Hin|[Hin|[]]]; [left; exact Hin|]. right. left. cbn [snd]. exact Hin.
+    + right. right. exact Hin.
+Qed.
+
+Lemma inspect_results_exact : forall f,
+  NoDup (map rs_key (inspect_results f))
+  /\ forall s, In s (inspect_results f) ->
+        exists n i, In n (f_nodes f) /\ In i (node_result_infos n) /\ rs_key s = ri_key i.
+Proof.
+  intro f. unfold inspect_results, new_result_specs.
+  destruct (fold_merge_keys (extract_results f) [] (NoDup_nil _)) as [H1 H2]. split; [exact H1|].
+  intros s Hs. destruct (H2 (rs_key s) (in_map rs_key _ s Hs)) as [[]|Hin].
+  apply in_map_iff in Hin. destruct Hin as [[nid i] [Hk Hni]]. cbn [snd] in Hk.
+  unfold extract_results in Hni. apply in_flat_map in Hni. destruct Hni as [n [Hn Hi]].
+  apply in_map_iff in Hi. destruct Hi as [i' [Heq Hi]]. inversion Heq; subst.
+  exists n, i. split; [exact Hn|]. split; [exact Hi | symmetry; exact Hk].
+Qed.
+
 (* ------------------------------------------------------------------------------------------------ *)
 (* what an action or router can save, it declares *)
 
@@ -608,3 +675,17 @@ Proof.
   assert (H : forallb site_known save_result_sites = true) by (vm_compute; reflexivity).
   intros s Hs. rewrite forallb_forall in H. apply H. exact Hs.
 Qed.
+
+(* Inspect.sv_guarded (hand-written: which savers save only when result_name is non-empty) agrees with the guards
+   the translator found around the saving calls *)
+Definition mentions (pat s : string) : bool := match index 0 pat s with Some _ => true | None => false end.
+
+Definition guarded_in_table (s : saver) : bool :=
+  match row_of s with
+  | Some r => negb (match ar_save_guards r with [] => true | _ => false end)
+              && forallb (mentions "a.ResultName != """"") (ar_save_guards r)
+  | None => false
+  end.
+
+Lemma sv_guarded_table : forall s, sv_guarded s = guarded_in_table s.
+Proof. destruct s; vm_compute; reflexivity. Qed.
